@@ -219,7 +219,7 @@ class Scheduler(object):
         self._dispatch(c)
       except SchedAbort:
         pass
-    if not self.finish.acquire(timeout=4 * WATCHDOG):
+    if not self.finish.acquire(timeout=2 * WATCHDOG):
       self._end("hang")
 
 
